@@ -427,10 +427,10 @@ theorem not_rolling_of_fin (w : World) (h : position w = .fin) : rolling w.ro = 
 /-- **where "rolling" comes from** — for every world: a reconcile leaves the rollout in Progressing/InRolling (or
     Paused) only if it was there already, or if it was Progressing/Initializing and this reconcile went through
     `doProgressingInitializing` all the way (the place where the binding is checked) -/
-theorem rolling_origin (w : World) (r : StepResult) (h : reconcile w = .val r) (hr : rolling r.w.ro = true) :
+theorem rolling_origin_core (w : World) (r : StepResult) (h : reconcileCore w = .val r) (hr : rolling r.w.ro = true) :
     rolling w.ro = true ∨ (position w = .init ∧ r.w.ro.reason = .inRolling) := by
   have e1 := rolling_ro1 w.ro
-  unfold reconcile at h
+  unfold reconcileCore at h
   dsimp only at h
   split at h
   · cases h
@@ -527,6 +527,16 @@ theorem rolling_origin (w : World) (r : StepResult) (h : reconcile w = .val r) (
     · -- Disabling
       exact finBranch w.wl .other false (fun x => { x with phase := .disabled }) (fun x hx => by simp [rolling] at hx) h
     · exact leafNs _ _ _ _ _ _ h rfl rfl
+
+/-- the same of the whole reconcile (body + cursor reset: the reset touches neither phase nor reason) -/
+theorem rolling_origin (w : World) (r : StepResult) (h : reconcile w = .val r) (hr : rolling r.w.ro = true) :
+    rolling w.ro = true ∨ (position w = .init ∧ r.w.ro.reason = .inRolling) := by
+  obtain ⟨r0, h0, rfl⟩ := reconcile_val h
+  have e : rolling (resetOnExit w r0).w.ro = rolling r0.w.ro := by
+    unfold rolling; rw [resetOnExit_phase, resetOnExit_reason]
+  rw [e] at hr
+  rw [resetOnExit_reason]
+  exact rolling_origin_core w r0 h0 hr
 
 end Transitions
 
